@@ -251,8 +251,14 @@ class Law:
         if flat_req:
             pb += '    requires ' + ',\n        '.join(flat_req) + ',\n'
         pb += '    ensures ' + ',\n        '.join(flat_ens) + ',\n{\n'
+        done = []
         for s in self.steps:
-            pb += '    assert(%s) by(nonlinear_arith);\n' % s
+            pre = flat_req + done
+            if pre:
+                pb += '    assert(%s) by(nonlinear_arith) requires %s;\n' % (s, ', '.join(pre))
+            else:
+                pb += '    assert(%s) by(nonlinear_arith);\n' % s
+            done.append(s)
         for s in flat_ens:
             if flat_req or self.steps:
                 pb += '    assert(%s) by(nonlinear_arith) requires %s;\n' % (s, ', '.join(flat_req + self.steps))
